@@ -63,6 +63,13 @@ fn st(t: Tree) -> Next {
 }
 
 /// Model of a live handle
+/// a builder kept across steps: what it was given when it was made
+#[derive(Clone, Debug)]
+pub enum MB {
+    Chmod { path: String, calls: Vec<ChmodCall> },
+    Chown { path: String, calls: Vec<ChownCall> },
+}
+
 #[derive(Clone, Debug)]
 pub enum MH {
     Read { data: Vec<u8>, pos: u64 },
@@ -74,6 +81,7 @@ pub struct Model {
     pub t: Tree,
     pub env: Env,
     pub hs: Vec<Option<MH>>,
+    pub bs: Vec<Option<MB>>,
     /// strictness switches (per property profile)
     pub strict_listing_links: bool,
 }
@@ -197,7 +205,7 @@ pub fn chmod_spec(calls: &[ChmodCall]) -> ChmodSpec {
 
 impl Model {
     pub fn new(env: Env) -> Model {
-        Model { t: Tree::default(), env, hs: (0..crate::exec::SLOTS).map(|_| None).collect(), strict_listing_links: false }
+        Model { t: Tree::default(), env, hs: (0..crate::exec::SLOTS).map(|_| None).collect(), bs: vec![None, None], strict_listing_links: false }
     }
 
     pub fn abs(&self, p: &str) -> Result<String, String> {
@@ -1352,6 +1360,18 @@ impl Model {
             // when a builder resolves its paths is not documented: anything goes for the model,
             // the wrapper must still do exactly what the wrapped backend does (C13)
             Op::CopyBDeferred { .. } | Op::ChmodBDeferred { .. } | Op::ChownBDeferred { .. } => vec![alt(Expect::Any, Next::Resync(vec!["/".into()]))],
+            // making a builder resolves the path and nothing else
+            Op::ChmodBKeep { p, .. } | Op::ChownBKeep { p, .. } => match self.abs(p) {
+                Ok(_) => same(ok(Val::Unit)),
+                Err(e) => same(err(&e)),
+            },
+            // executing it is the call it was made for, on the state as it is now
+            Op::BExec { b } => match &self.bs[*b] {
+                Some(MB::Chmod { path, calls }) => self.eval(&Op::ChmodB { p: path.clone(), calls: calls.clone() }),
+                Some(MB::Chown { path, calls }) => self.eval(&Op::ChownB { p: path.clone(), calls: calls.clone() }),
+                None => same(Expect::Any),
+            },
+            Op::BDrop { .. } => same(ok(Val::Unit)),
             Op::Paths { p } => self.listing(p, false, None),
             Op::Dirs { p } => self.listing(p, false, Some(Kind::Dir)),
             Op::Files { p } => self.listing(p, false, Some(Kind::File)),
@@ -1544,6 +1564,25 @@ impl Model {
             },
             Op::HDrop { h } | Op::HDropUnwind { h } => {
                 self.hs[*h] = None;
+            },
+            Op::ChmodBKeep { b, p, calls } => {
+                if out.is_ok() {
+                    if let Ok(a) = refpath::abs(p, &pre.cwd, &self.env) {
+                        self.bs[*b] = Some(MB::Chmod { path: a, calls: calls.clone() });
+                    }
+                }
+            },
+            Op::ChownBKeep { b, p, calls } => {
+                if out.is_ok() {
+                    if let Ok(a) = refpath::abs(p, &pre.cwd, &self.env) {
+                        self.bs[*b] = Some(MB::Chown { path: a, calls: calls.clone() });
+                    }
+                }
+            },
+            Op::BDrop { b } => {
+                if out.is_ok() {
+                    self.bs[*b] = None;
+                }
             },
             _ => {},
         }
